@@ -311,7 +311,11 @@ def compile_item(it, base, tags=()):
         emit(["sqrt", R(ix)])
         emit(["cbrt", R(ix)])
         emit(["be_rat_nth_root", R(ix), kk if (q >= 0 or kk % 2) else kk + 1])
-        emit(["be_rat_is_perfect_power", R(ix)])
+        # Rational::is_perfect_power runs mp_perfect_power_p on num*den: operands below 2^100 only (Boost cost)
+        if q.numerator.bit_length() + q.denominator.bit_length() <= 96:
+            emit(["be_rat_is_perfect_power", R(ix)])
+        sq = Fraction(abs(x[0]) % 256 + 1, abs(x[1]) % 255 + 2) ** kk
+        emit(["be_rat_is_perfect_power", ["rational", sq.numerator, sq.denominator], it["raise_"]])
         iy = emit(["let", ["pow", _rat(y), ["rational", 1, t]]], "pow")
         i2 = emit(["mul", R(i1), R(iy)])
         emit(["str", R(i2)])
